@@ -13,7 +13,9 @@
 // instant at which this client performed the action that makes it begin; that client-side instant (taken
 // BEFORE the action) is the anchor.  Hence  observedClose − anchor ≥ limit  holds on a correct
 // implementation whatever the scheduling: the "never earlier than the limit" side is checked sharply
-// (eps = clock granularity), the other side with a generous slack.
+// (eps = clock granularity), the other side with a slack that is generous but always below the limit itself
+// (slackUsFor: a close after TWO periods of a limit is late whatever the limit; late.go sends bytes after a limit
+// has expired and expects them to be answered with nothing).
 package c15
 
 import (
@@ -489,6 +491,8 @@ type sess struct {
 	nreq   int
 	hdrAt  int64 // instant the complete PROXY header was sent (µs from base), -1 = never
 	slow   bool  // a step of the well-behaved client failed after taking more than half the limit that governs it
+
+	rest []byte // stallAt: what is left of the unit the client stalls in (the bytes that would complete it)
 }
 
 func (s *sess) us(t time.Time) int64 { return t.Sub(s.base).Microseconds() }
